@@ -154,6 +154,28 @@ def check(ctx):
     if not evaluated_class:
         ctx.require(R2, ok, "%s:%s" % (gat.file, gat.line), "get_acme_type = get_type().into()", ["get_acme_type", "wiring"])
 
+    # every refused POST is classified BY ITS PROBLEM DOCUMENT: from the error edge of check_status, a locally built error result is
+    # returned only after get_acme_type() was consulted (a body that cannot be read / parsed is forwarded with `?`, which is not a
+    # classification) — no side condition (a header, the status code) decides that an answer is final without looking at its type
+    pb0 = prog.async_body(POST)
+    csx = pb0.calls_to("acmed::http::check_status")
+    gat_calls = [c.bb for c in pb0.calls if (c.name or "").endswith("HttpApiError::get_acme_type") and c.bb in pb0.live_blocks()]
+    okb0, errb0, fwd0 = result_return_kinds(pb0)
+    n_err_edges = 0
+    for c in csx:
+        for t in try_edges(pb0, [c.dest["l"]]):
+            for tg in t["err"]:
+                n_err_edges += 1
+                r_ = pb0.reachable([tg], removed_nodes=gat_calls)
+                # error values BUILT here (`Err(..)` literals), as opposed to errors of the read/parse steps forwarded by `?`
+                built = [i_ for i_ in sorted(r_) if not pb0.is_cleanup(i_) and any(st_["s"] == "assign" and st_["rv"]["k"] == "agg" and st_["rv"].get("agg") == "adt"
+                                                                                   and str(st_["rv"].get("adt", "")).startswith("core::result::Result") and st_["rv"].get("variant") == "Err"
+                                                                                   for st_ in pb0.blocks[i_]["stmts"])]
+                early = built
+                ctx.require(R2, not early, where(pb0, early[0]) if early else c.where(), "a refused POST is given up only after its problem document was classified (get_acme_type), or because the body could not be read",
+                            [POST, "unclassified-error"])
+    ctx.floor(R2, "error edges of check_status in http::post", n_err_edges, 1)
+
     # R3
     R3 = ctx.rule("R3", "bounded transmissions: post retries in `for _ in 0..DEFAULT_HTTP_FAIL_NB_RETRY` (<=10), one send per iteration; polling in `for _ in 0..DEFAULT_POOL_NB_TRIES` (<=20), one POST per iteration")
     pb, sends, builder, upd = post_structure(prog)
